@@ -381,6 +381,10 @@ func parentMain(s *Spec, tier string) int {
 				enc := json.NewEncoder(f)
 				if code == 97 && !s.HangIsViol {
 					_ = enc.Encode(rec{K: "incon", I: last, What: "case watchdog fired (hang?)"})
+				} else if code == 128+9 {
+					// SIGKILL is sent by nothing in the harness (its own watchdog ends a worker with exit 97): the kernel's
+					// out-of-memory killer or somebody outside ended the worker — that says nothing about the case
+					_ = enc.Encode(rec{K: "incon", I: last, What: "the harness worker was ended by SIGKILL from outside (out of memory?) while executing this case"})
 				} else {
 					sig := "worker-crash:" + crashSig(tail)
 					if code == 97 {
